@@ -28,6 +28,8 @@ func (nolog) Errorf(string, ...interface{}) {}
 // (as one goroutine per peer connection, or per message, would do), on a private copy of the bytes.
 type network struct {
 	nodes    []MpcParty
+	ids      []uint16       // identifier of nodes[i]
+	index    map[uint16]int // identifier -> position in nodes (configured members without a node are absent)
 	inflight sync.WaitGroup
 	stopped  int32
 	rng      *prng
@@ -50,7 +52,8 @@ func (nw *network) rand(n int) int {
 }
 
 func (nw *network) deliver(to uint16, m *IncMessage, delay time.Duration) {
-	if atomic.LoadInt32(&nw.stopped) != 0 || int(to) < 1 || int(to) > len(nw.nodes) {
+	pos, isNode := nw.index[to]
+	if atomic.LoadInt32(&nw.stopped) != 0 || !isNode {
 		return
 	}
 	c := &IncMessage{Data: clone(m.Data), Topic: clone(m.Topic), Source: m.Source, MsgType: m.MsgType}
@@ -62,7 +65,7 @@ func (nw *network) deliver(to uint16, m *IncMessage, delay time.Duration) {
 		if delay > 0 {
 			time.Sleep(delay)
 		}
-		nw.nodes[to-1].HandleMessage(c)
+		nw.nodes[pos].HandleMessage(c)
 	}()
 }
 
